@@ -13,7 +13,7 @@ ASSUMPTIONS = ["BIE1 per Electrum: S = compressed(a*B); SHA-512(S) -> iv|kE|kM; 
 NSHARDS = {"quick": 32, "thorough": 64}
 BUDGET_S = {"quick": 200, "thorough": 1800}
 MIN_HITS = {
-    'quick': {"enc": 266, "exclude": 39, "ephemeral": 64, "flip": 195539, "flip_pub": 59928, "flip_mac": 68096, "flip_body": 59003, "wrong_key": 266, "len>=16384": 2},
+    'quick': {"enc": 272, "exclude": 42, "ephemeral": 64, "flip": 199895, "flip_pub": 60720, "flip_mac": 69632, "flip_body": 60839, "wrong_key": 272, "len>=16384": 8},
     'thorough': {"enc": 15504, "exclude": 840, "ephemeral": 4608, "flip": 11715673, "wrong_key": 15504, "len>=16384": 48},
 }
 EDGE = [1, 2, 3, (ec.N - 1) // 2, (ec.N + 1) // 2, ec.N - 2, ec.N - 1]
@@ -56,7 +56,7 @@ def cases(ctx):
     t = ctx.tier == "thorough"
     S, N = ctx.shard, ctx.nshards
     k = 0
-    lens = list(range(0, 65)) + [100, 1000, 16383, 16384, 40000]
+    lens = list(range(0, 65)) + [100, 1000, 16383, 16384, 40000, 65400, 65487, 65488, 65536, 70000, 131072] + ([1 << 20, (1 << 24) + 5] if t else [])
     reps = 20 if t else 1
     for rep in range(reps):
         for L in lens:
@@ -144,6 +144,17 @@ def judge(ctx, case):
     ctx.ev()
     if o.get("direct_decrypt", {}).get("ok") != case["msg"]:
         ctx.viol("decrypt(encrypt(m)) != m before serialisation (%s)" % mode, {"resp": str(o.get("direct_decrypt"))[:200]})
+    if len(msg) >= 65400:
+        ctx.hit("len>=65400")
+    # the negated sender key (same x coordinate) right after a genuine decryption on the same thread, then the genuine key again
+    if "direct_decrypt_negated_sender" in o and mode != "ephemeral":
+        for fld in ("direct_decrypt_negated_sender", "direct_decrypt_negated_sender_via_key"):
+            ctx.ev()
+            ctx.hit("negated_sender_key")
+            if "ok" in o[fld]:
+                ctx.viol("decrypting right after a genuine decryption with the NEGATED sender key returns plaintext (%s)" % ("PrivateKey::decrypt_message" if fld.endswith("via_key") else "ECIES::decrypt"), {"mode": mode})
+        if o.get("direct_decrypt_again", {}).get("ok") != case["msg"]:
+            ctx.viol("a genuine decryption fails after a decryption attempt with the negated sender key", {"resp": str(o.get("direct_decrypt_again"))[:200]})
     # the in-memory ciphertext object (never serialised) must not decrypt under a wrong recipient or sender key either
     for fld, what in (("direct_decrypt_wrong_recipient", "a wrong recipient key"), ("direct_decrypt_wrong_recipient_via_key", "a wrong recipient key (PrivateKey::decrypt_message)"), ("direct_decrypt_wrong_sender", "a wrong sender key"), ("direct_decrypt_wrong_sender_via_key", "a wrong sender key (PrivateKey::decrypt_message)")):
         if fld in o and int(case["other"], 16) not in (a, b):
